@@ -41,7 +41,7 @@ pub struct GroupAns {
     pub cells: Vec<(bool, u32)>,
 }
 
-fn search_key(q: &Query) -> IndexerSearchKey {
+pub fn search_key(q: &Query) -> IndexerSearchKey {
     let script = script_of_raw(&unhex(&q.script));
     let filter = q.filter.as_ref().map(|f| IndexerSearchKeyFilter {
         script: f.script.as_ref().map(|s| script_of_raw(&unhex(s)).into()),
@@ -62,7 +62,7 @@ fn search_key(q: &Query) -> IndexerSearchKey {
     }
 }
 
-fn mode_of(m: u8) -> Option<IndexerSearchMode> {
+pub fn mode_of(m: u8) -> Option<IndexerSearchMode> {
     match m {
         MODE_PREFIX => Some(IndexerSearchMode::Prefix),
         MODE_EXACT => Some(IndexerSearchMode::Exact),
@@ -71,11 +71,11 @@ fn mode_of(m: u8) -> Option<IndexerSearchMode> {
     }
 }
 
-fn order_of(desc: bool) -> IndexerOrder {
+pub fn order_of(desc: bool) -> IndexerOrder {
     if desc { IndexerOrder::Desc } else { IndexerOrder::Asc }
 }
 
-fn cell_ans(c: IndexerCell) -> CellAns {
+pub fn cell_ans(c: IndexerCell) -> CellAns {
     let output: packed::CellOutput = c.output.into();
     CellAns {
         tx_hash: c.out_point.tx_hash.0,
@@ -87,7 +87,7 @@ fn cell_ans(c: IndexerCell) -> CellAns {
     }
 }
 
-fn is_out(t: &IndexerCellType) -> bool {
+pub fn is_out(t: &IndexerCellType) -> bool {
     matches!(t, IndexerCellType::Output)
 }
 
@@ -168,11 +168,11 @@ fn known_hit(st: &mut Stats, sig: &str) {
     st.label(&format!("known:{}", sig.split(' ').next().unwrap_or(sig)));
 }
 
-fn vio(sig: &str, q: &Query, at: &str, msg: String) -> Violation {
+pub fn vio(sig: &str, q: &Query, at: &str, msg: String) -> Violation {
     Violation::new(sig.to_string(), format!("{at}: {}: {msg}", q.show()))
 }
 
-fn model_cell_ans(c: &MCell, with_data: bool) -> CellAns {
+pub fn model_cell_ans(c: &MCell, with_data: bool) -> CellAns {
     CellAns {
         tx_hash: c.tx_hash,
         index: c.index,
@@ -183,7 +183,7 @@ fn model_cell_ans(c: &MCell, with_data: bool) -> CellAns {
     }
 }
 
-fn model_tx_ans(e: &MEntry) -> TxAns {
+pub fn model_tx_ans(e: &MEntry) -> TxAns {
     TxAns {
         tx_hash: e.tx_hash,
         block_number: e.block_number,
@@ -193,11 +193,11 @@ fn model_tx_ans(e: &MEntry) -> TxAns {
     }
 }
 
-fn short(h: &H32) -> String {
+pub fn short(h: &H32) -> String {
     hexs(&h[0..4])
 }
 
-fn show_cell(c: &CellAns) -> String {
+pub fn show_cell(c: &CellAns) -> String {
     let o = packed::CellOutput::from_slice(&c.output).ok();
     let (l, t) = match &o {
         Some(o) => (
@@ -209,7 +209,7 @@ fn show_cell(c: &CellAns) -> String {
     format!("{}:{}@{}.{} lock={l} type={t}", short(&c.tx_hash), c.index, c.block_number, c.tx_index)
 }
 
-fn show_tx(t: &TxAns) -> String {
+pub fn show_tx(t: &TxAns) -> String {
     format!(
         "{}@{}.{} {}{}",
         short(&t.tx_hash),
@@ -221,7 +221,7 @@ fn show_tx(t: &TxAns) -> String {
 }
 
 /// multiset difference rendered for the violation detail
-fn diff<T: Ord + Clone, F: Fn(&T) -> String>(actual: &[T], expected: &[T], show: F) -> (Vec<String>, Vec<String>) {
+pub fn diff<T: Ord + Clone, F: Fn(&T) -> String>(actual: &[T], expected: &[T], show: F) -> (Vec<String>, Vec<String>) {
     let mut a: Vec<T> = actual.to_vec();
     let mut e: Vec<T> = expected.to_vec();
     a.sort();
@@ -244,7 +244,7 @@ fn diff<T: Ord + Clone, F: Fn(&T) -> String>(actual: &[T], expected: &[T], show:
     (extra, missing)
 }
 
-fn same_multiset<T: Ord + Clone>(a: &[T], b: &[T]) -> bool {
+pub fn same_multiset<T: Ord + Clone>(a: &[T], b: &[T]) -> bool {
     let mut a = a.to_vec();
     let mut b = b.to_vec();
     a.sort();
@@ -253,7 +253,7 @@ fn same_multiset<T: Ord + Clone>(a: &[T], b: &[T]) -> bool {
 }
 
 /// per searched script: positions must ascend in chain order
-fn check_cells_order(actual_asc: &[CellAns], stype: u8) -> Result<(), String> {
+pub fn check_cells_order(actual_asc: &[CellAns], stype: u8) -> Result<(), String> {
     let mut last: BTreeMap<Vec<u8>, (u64, u32, u32)> = BTreeMap::new();
     for c in actual_asc {
         let o = packed::CellOutput::from_slice(&c.output).map_err(|e| e.to_string())?;
@@ -420,7 +420,7 @@ fn check_capacity(h: &IndexerHandle, m: &MState, q: &Query, at: &str, tol: &Tol,
     Err(vio("get_cells_capacity:wrong-sum", q, at, format!("capacity {actual}, expected {} over {} cells", sum(&yes), yes.len())))
 }
 
-fn flatten(groups: &[GroupAns]) -> Vec<TxAns> {
+pub fn flatten(groups: &[GroupAns]) -> Vec<TxAns> {
     groups
         .iter()
         .flat_map(|g| {
@@ -584,7 +584,7 @@ pub fn check_tip(h: &IndexerHandle, m: &MState, at: &str) -> Verdict {
     Ok(())
 }
 
-fn render_cell(c: &CellAns) -> String {
+pub fn render_cell(c: &CellAns) -> String {
     format!("{} cap={} data={:?}", show_cell(c), packed::CellOutput::from_slice(&c.output).map(|o| { let v: u64 = o.capacity().into(); v }).unwrap_or(0), c.data.as_ref().map(|d| hexs(d)))
 }
 
